@@ -93,6 +93,16 @@ func RenderShared(body []Instr) (string, bool) {
 			fmt.Fprintf(&sb, "  %s = dbl(%s)\n", g, g)
 		case "print":
 			fmt.Fprintf(&sb, "  print %s\n", g)
+		// instructions that start a command; the command string is built from the variable id (Config.Vars), which is
+		// different for every execution of a case (SharedProgram!CmdOf); echo and read are builtins of /bin/sh
+		case "system":
+			sb.WriteString("  system(\"echo \" id)\n")
+		case "cmdgetline":
+			fmt.Fprintf(&sb, "  (\"echo \" id) | getline %s\n", g)
+		case "printcmd":
+			fmt.Fprintf(&sb, "  print %s | (\"echo \" id \"; read v; echo $v\"); close(\"echo \" id \"; read v; echo $v\")\n", g)
+		case "close":
+			sb.WriteString("  close(\"echo \" id)\n")
 		default:
 			return "", false
 		}
